@@ -34,7 +34,8 @@ LEVEL_TEXT = ("Machine-checked proof (Coq, closed under the global context) over
 LEVEL_NOTE = ("Proof over a modelled file system: os.chmod/chown/utime/truncate and open('r+') are small Gallina "
               "re-implementations of their documented behaviour, validated only by the correspondence run; the "
               "modification time after a resize is an input taken from the implementation; permission errors, "
-              "win32 and chown to foreign ids are outside the model; symlinks are modelled as transparent (every os.* "
+              "win32, chown to foreign ids and the kernel's clearing of set-id bits on chown / resize are outside the model "
+              "(the latter is compared with the os.* call on a twin tree, full mode bits); symlinks are modelled as transparent (every os.* "
               "call used follows them), which the twin-tree comparison checks on the real file system.")
 TECHNIQUE = ("Coq proof over a modelled file + AST translator for flag bits and step list + vm_compute differential "
              "correspondence (single requests, request sequences, every kind of target vs an os.* twin tree) through real "
@@ -494,10 +495,18 @@ def gen_kind_case(rng, root_user):
     op = rng.choice(["chmod", "chown", "utime", "truncate", "truncate"])
     by_handle = kind == "removed-handle" or (kind in ("file", "link") and rng.random() < 0.5)
     data = gen_data(rng, 80)
+    # full modes incl. setuid / setgid / sticky: what the kernel does to them on a chown (even to the
+    # same owner), a resize or a chmod is whatever it does on the twin tree
+    high = rng.choice([0, 0o4000, 0o2000, 0o6000, 0o1000, 0o7000])
+    mode0 = rng.choice([0o755, 0o711, 0o750, 0o644, gen_mode(rng, False)]) | high
+    if op == "chown" and kind in ("file", "link") and rng.random() < 0.6:
+        mode0 = rng.choice([0o4755, 0o2755, 0o6711, 0o6755, 0o4711, 0o2711])
     c = {"kinds": True, "kind": kind, "op": op, "by_handle": by_handle, "data": data,
-         "mode0": (gen_mode(rng, False) | (0o700 if kind == "dir" or not root_user else 0)),
+         "mode0": mode0 | (0o700 if kind == "dir" or not root_user else 0),
          "atime0": gen_time(rng), "mtime0": gen_time(rng),
-         "mode": gen_mode(rng, False) | (0 if root_user else 0o700), "ids": (os.getuid(), os.getgid()),
+         "mode": (gen_mode(rng, False) | rng.choice([0, 0, 0o4000, 0o2000, 0o1000, 0o6000])
+                  | (0 if root_user else 0o700)),
+         "ids": (os.getuid(), os.getgid()),
          "times": (gen_time(rng), gen_time(rng)), "size": gen_size(rng, len(data), 120)}
     return c
 
@@ -884,7 +893,10 @@ def run(ctx):
             ctx.count(repr(sorted(case.items())), nontrivial=True,
                       kind="kind-%s-%s" % (case["kind"], "handle" if case["by_handle"] else "path"))
             oracle_kind(ctx, case, obs)
-            kinds.append((model_kind_case(case, obs), (case, obs)))
+            # the model leaves the set-id bits to the kernel (it may clear them on chown / resize):
+            # those cases are compared with the twin tree only
+            if not (case["mode0"] & 0o6000 and (case["op"] == "chown" or (case["op"] == "truncate" and not root_user))):
+                kinds.append((model_kind_case(case, obs), (case, obs)))
             if i < 1:
                 ctx.sample({"kind_case": case, "outcome": obs["outcome"], "served": obs["served"]})
         # several handles / sessions alive at once (second session on the same transport, third on its own)
